@@ -2,8 +2,19 @@
 
 package css
 
-// VerifRecursiveCheck exposes recursiveCheck to the verification harness, which drives it with
-// handler functions of its own that count their invocations.  Read-only: it adds no behaviour.
+// Read-only exports of unexported helpers for the verification harness: they add no behaviour.
+
+// VerifRecursiveCheck exposes recursiveCheck; the harness drives it with handler functions of its
+// own that count their invocations.
 func VerifRecursiveCheck(value []string, funcs []func(string) bool) bool {
 	return recursiveCheck(value, funcs)
 }
+
+// VerifIn exposes in.
+func VerifIn(value []string, arr []string) bool { return in(value, arr) }
+
+// VerifMultiSplit exposes multiSplit.
+func VerifMultiSplit(value string, seps ...string) []string { return multiSplit(value, seps...) }
+
+// VerifSplitValues exposes splitValues.
+func VerifSplitValues(value string) []string { return splitValues(value) }
